@@ -1212,11 +1212,14 @@ def rule_conv(chk, P):
         r = cv.find(src, "Rvalue", dst, "Rvalue")
         if r[0] != "Ok":
             continue
-        out = cv.apply(r[1], var)
-        n += 1
-        okc = isinstance(out, I.Enum) and out.variant == "Cast" and out.fields.get("1") is var and out.fields.get("0") == cv.u.type_id(dst)
-        if not okc:
-            bad.append("%s -> %s yields %r, must be Cast(<%s>, <the expression>)" % (src, dst, out, dst))
+        # the operand is a variable, or itself an explicit cast (`(float)v4` converted on to float3 means v4.xxx: the inner cast stays)
+        inner_cast = I.Enum("Expression", "Cast", {"0": cv.u.type_id(src), "1": I.Enum("Expression", "Variable", {"0": I.Opaque("w")})})
+        for operand, what in ((var, "a variable"), (inner_cast, "an explicit cast `(%s)w`" % src)):
+            out = cv.apply(r[1], operand)
+            n += 1
+            okc = isinstance(out, I.Enum) and out.variant == "Cast" and out.fields.get("1") is operand and out.fields.get("0") == cv.u.type_id(dst)
+            if not okc:
+                bad.append("%s -> %s applied to %s yields %r, must be Cast(<%s>, <the whole operand>): a conversion written in the source is dropped or re-targeted" % (src, dst, what, out, dst))
     chk.ob(P + ".conv/explicit-cast", not bad, "apply returns the expression unchanged only when no cast is needed, otherwise an explicit Expression::Cast (%d conversions)" % n if not bad else
            "ImplicitConversion::apply: %s" % bad[0], where(ap))
     chk.ob(P + ".conv/cast-to-target", not bad, "the cast target is the conversion's target type" if not bad else "see conv/explicit-cast", where(ap), trivial=True)
